@@ -190,11 +190,12 @@ def run(ctx):
     else:
         # quick: one TLC run checks the invariants and exports the scenarios
         recs_a = rl.mc_and_export(ctx, "Isolation", "Isolation_quick.cfg", cover_a, min_records=1000)
-    # sensitivity guards of the models (the quick tier runs one per model and the one-copy-per-call guard)
+    # sensitivity guards of the models (the quick tier runs one per model: last branch recognised by ==, one
+    # copy per call; the others run in the thorough tier)
     guards_a = (("Isolation_nocopy.cfg", "Isolated"), ("Isolation_shallow.cfg", "Isolated"),
                 ("Isolation_eqlast.cfg", "Isolated"))
     guards_b = (("Alias_once.cfg", "Fresh"), ("Alias_nocopy.cfg", "Fresh"), ("Alias_nocopy2.cfg", "MutateIsLocal"))
-    for cfg, prop in (guards_a if ctx.thorough else guards_a[1:]):
+    for cfg, prop in (guards_a if ctx.thorough else guards_a[2:]):
         res = ctx.mc("Isolation", cfg, expect_violation="report")
         if res.violated != prop:
             raise core.MachineryError("the isolation model is insensitive: %s did not refute %s" % (cfg, prop))
@@ -203,7 +204,7 @@ def run(ctx):
         recs_b = ctx.export("Alias", "Alias_thorough_export.cfg", min_records=500)
     else:
         recs_b = rl.mc_and_export(ctx, "Alias", "Alias_quick.cfg", cover_b, min_records=500)
-    for cfg, prop in (guards_b if ctx.thorough else guards_b[:2]):
+    for cfg, prop in (guards_b if ctx.thorough else guards_b[:1]):
         res = ctx.mc("Alias", cfg, expect_violation="report")
         if res.violated != prop:
             raise core.MachineryError("the alias model is insensitive: %s did not refute %s" % (cfg, prop))
